@@ -151,7 +151,7 @@ impl BlkFile {
                 },
                 Err(_) => final(self).reader == old(self).reader,
             },
-//@after `self.reader = Some(XorReader::new(buf_reader, self.xor_key.clone()));`
+//@after `self.reader =`
             proof {
                 let rd = self.reader->Some_0;
                 assert(rd.file() =~= plain_file(&self.path, rd.xor_key));
@@ -180,7 +180,7 @@ impl BlkFile {
             r is Ok ==> offset <= plain_file(&old(self).path, old(self).xor_key).len()
                 && r->Ok_0 == block_at(plain_file(&old(self).path, old(self).xor_key), offset as int,
                         le32_at(plain_file(&old(self).path, old(self).xor_key), offset - 4), *coin),
-//@after `let reader = self.open()?;`
+//@after `let reader =`
         assert(reader.file() == plain_file(&old(self).path, old(self).xor_key));
 //@end
 }
